@@ -101,8 +101,19 @@ class Scenario:
             self.occ[fn] = occ
             self.file_patterns[fn] = pats
             self.kinds_ok = kinds is not None
-        self.fault = r.choice([None, None, None, "nomatch", "missing"])
+        self.fault = r.choice([None, None, None, "nomatch", "missing", "nomatch_one"])
         self.fault_file = r.choice(sorted(self.files)) if self.fault else None
+        if self.fault == "nomatch_one":
+            # one pattern of a file loses its only occurrence while a sibling pattern matches on two lines
+            cands = [fn for fn in sorted(self.files) if len(self.occ[fn]) == 2 and len({li for li, _ in self.occ[fn]}) == 2 and "version" in [k for _, k in self.occ[fn]]]
+            if cands:
+                fn = self.fault_file = r.choice(cands)
+                (li_v,) = [li for li, k in self.occ[fn] if k == "version"]
+                (li_o,) = [li for li, k in self.occ[fn] if k != "version"]
+                self.files[fn][li_o] = "occurrence removed"
+                self.files[fn].append(self.files[fn][li_v] + " (again)")
+            else:
+                self.fault = "nomatch"
         self.tags = []
         self.scope = r.choice(["default", "default", "global", "branch"])
         if self.commit and r.random() < 0.5:
